@@ -25,7 +25,7 @@ class Prop:
             "sources (inners completing synchronously, never, or erroring while others are active) through merge_all, flat_map, "
             "flat_map_indexed, concat_map and merge(max_concurrent=1..3); output (values, virtual times, terminal) and every source's "
             "subscription intervals are compared with an event-driven reference (timed union, completion after outer and all inners, "
-            "first error terminates, at most n inners subscribed, queued inners started in arrival order). Scenarios with a same-instant tie "
+            "first error terminates, at most n inners subscribed, queued inners started in arrival order); every inner subscription must be given the subscriber's scheduler. Scenarios with a same-instant tie "
             "between two sources are only checked for the grammar. Distinct = (form, args, output); non-trivial = two notifications and two "
             "inner subscriptions.")
     assumptions = ["tie policy for same-instant events of different sources"]
@@ -106,6 +106,13 @@ class Prop:
                     break
             if any(q for q in [1] if mc and nsubs > mc):
                 out.probes["queue_nonempty_under_max_concurrent"] += 1
+        # the subscriber's scheduler reaches every inner subscription, queued ones included: an inner without a scheduler of its own
+        # (timer, of, interval ...) takes its timing from it, so "at their original virtual times" depends on it
+        for sid in sc["inners"]:
+            for x in w.sources[sid].subs:
+                if x.sched is not w.s:
+                    out.bad("inner-scheduler", "%s: inner %s was subscribed at %s with scheduler %r instead of the subscriber's" % (desc, sid, x.sub_t, x.sched))
+                    break
         out.info = {"form": sc["form"], "args": sc["a"], "output": [list(map(str, e)) for e in eng.out[:6]]}
         return out
 
